@@ -680,7 +680,99 @@ func init() {
 			return repeat(f.Int("reps"), func() string { return dslOutcome(builder.Parse(font, txt)) })
 		}))
 	}
+	// comments do not change what a text means: parse the text and the text without its comments
+	ops["dsl.comments"] = func(f Fields) string {
+		return dslCanonPanic(guard(func() string {
+			font := dslFontOf(f)
+			a := dslOutcome(builder.Parse(font, string(f.Hex("text"))))
+			b := dslOutcome(builder.Parse(font, string(f.Hex("plain"))))
+			if a != b {
+				return "differs:" + a + "|" + b
+			}
+			return "same"
+		}))
+	}
+	// an early error followed by many more lookups: the lexer still has a lot to deliver when the
+	// parser gives up; no goroutine may stay behind
+	ops["dsl.goroutinesrep"] = func(f Fields) string {
+		return dslCanonPanic(guard(func() string {
+			old := runtime.GOMAXPROCS(f.Int("procs"))
+			defer runtime.GOMAXPROCS(old)
+			if b := builderGoroutines(); b != 0 {
+				return fmt.Sprintf("dirty-baseline=%d", b)
+			}
+			font := dslFontOf(f)
+			text := string(f.Hex("head")) + strings.Repeat(string(f.Hex("unit")), f.Int("rep"))
+			reps := 3
+			if f.Int("rep") >= 1000 {
+				reps = 1
+			}
+			for i := 0; i < reps; i++ {
+				if _, err := builder.Parse(font, text); err == nil {
+					return "no-error"
+				}
+			}
+			return fmt.Sprintf("leak=%d", builderGoroutines())
+		}))
+	}
 	dslWorkerEnter()
+}
+
+// dslCommentBodies: what may follow a `#` up to the end of the line.
+var dslCommentBodies = []string{" swap A", "x", " 12", " a -> b, \"q\" # more", "", " ends in ]", " GSUB1: A -> B", " é", "#", " \"", " -", " trailing space ",
+	" |", " 0", ";", " ->"}
+
+// addComments appends comments to lines of the text (always to the last line, without a final
+// newline half of the time) and returns the commented text; the text itself is what is left when
+// the comments are stripped.  nul: put a NUL byte into one comment.
+func addComments(r *Rng, text string, nul bool) string {
+	out, _ := addComments2(r, text, nul)
+	return out
+}
+
+// addComments2 also returns the text with the comments stripped again (same line structure).
+func addComments2(r *Rng, text string, nul bool) (string, string) {
+	lines := strings.Split(text, "\n")
+	for i := range lines {
+		last := i == len(lines)-1
+		if last || r.Chance(1, 2) {
+			body := Pick(r, dslCommentBodies)
+			if nul && (last || r.Chance(1, 3)) {
+				body = " a\x00b" + body
+			}
+			lines[i] += Pick(r, []string{" ", "", "\t"}) + "#" + body
+		}
+	}
+	out := strings.Join(lines, "\n")
+	plain := text
+	if r.Bool() {
+		out += "\n"
+		plain += "\n"
+	}
+	return out, plain
+}
+
+// quotesBalanced: no line of the text ends inside a string (a `#` there would not start a comment).
+func quotesBalanced(text string) bool {
+	for _, ln := range strings.Split(text, "\n") {
+		in, esc := false, false
+		for _, ch := range ln {
+			switch {
+			case esc:
+				esc = false
+			case in && ch == '\\':
+				esc = true
+			case ch == '"':
+				in = !in
+			case ch == '#' && !in:
+				return false // the text has a comment already
+			}
+		}
+		if in {
+			return false
+		}
+	}
+	return true
 }
 
 // ---------------------------------------------------------------- generators
@@ -1311,6 +1403,10 @@ func areaDsl(c *Ctx) {
 				t = string(r.Bytes(r.Range(0, 24)))
 				c.Stat("lex.text", "random bytes")
 			}
+			if r.Chance(1, 5) {
+				t = addComments(r, t, r.Chance(1, 4))
+				c.Stat("lex.text", "with comments")
+			}
 			out := c.Case(Verdict, "dsl.lex", "text="+hx([]byte(t)), len(t) > 1)
 			switch {
 			case strings.Contains(out, "0:u"):
@@ -1357,6 +1453,18 @@ func areaDsl(c *Ctx) {
 				}
 				c.Stat("parse.text", "gsub1 identity entries (repeated)")
 				c.Case(Verdict, "dsl.parserepeat", d.args()+" reps=24 text="+hx([]byte(t)), true)
+			}
+			if r.Chance(1, 4) {
+				if quotesBalanced(t) && r.Chance(3, 4) {
+					// D: the comments stripped again, the parse result is the same
+					tc, plain := addComments2(r, t, false)
+					c.Stat("parse.text", "with comments (and without)")
+					c.Case(Direct, "dsl.comments", d.args()+" text="+hx([]byte(tc))+" plain="+hx([]byte(plain)), true)
+					t = tc
+				} else {
+					t = addComments(r, t, r.Chance(1, 3))
+					c.Stat("parse.text", "with comments")
+				}
 			}
 			out := c.Case(Verdict, "dsl.parse", d.args()+" text="+hx([]byte(t)), true)
 			if strings.HasPrefix(out, "ok:") {
@@ -1423,10 +1531,23 @@ func areaDsl(c *Ctx) {
 				t = genRangeText(c, d)
 				c.Stat("total.text", "glyph ranges")
 			}
+			if r.Chance(1, 5) {
+				t = addComments(r, t, r.Chance(1, 4))
+				c.Stat("total.text", "with comments")
+			}
 			out := c.Case(Direct, "dsl.total", d.args()+" text="+hx([]byte(t)), true)
 			c.Stat("total.outcome", strings.SplitN(out, ":", 2)[0])
 		default: // goroutines after erroring parses (D), GOMAXPROCS 1 and 16
 			d := simpleFont
+			if r.Chance(1, 16) { // an early error, then many more lookups for the lexer to deliver
+				head := Pick(r, []string{"GSUB1: A -> \n", "GSUB2: A\n", "GPOS1: A -> q\n", "GSUB1: \"Az\" -> B\n", "GSUB9: A\n", "GSUB1: A -> B\n$\n"})
+				unit := Pick(r, []string{"GSUB1: A -> B\n", "GSUB2: A -> \"AB\", B -> C D\n", "GPOS1: [A B] -> x+1 y-2\n", "GSUB4: A B -> C # c\n"})
+				rep := Pick(r, []int{100, 100, 100, 1000, 1000, 5000}) // 20000 takes longer than the worker's 2 s limit here
+				procs := Pick(r, []int{1, 2, 16})
+				c.Stat("goroutines.text", fmt.Sprintf("early error + %d lookups", rep))
+				c.Case(Direct, "dsl.goroutinesrep", fmt.Sprintf("procs=%d %s rep=%d head=%s unit=%s", procs, d.args(), rep, hx([]byte(head)), hx([]byte(unit))), true)
+				continue
+			}
 			var t string
 			switch r.Intn(4) {
 			case 0: // error in the middle of a quoted string
